@@ -19,7 +19,7 @@ CHECK_DEADLOCK FALSE
 """
 
 NCPU = os.cpu_count() or 4
-MAX_PER_TRACE = 150
+MAX_PER_TRACE = 60
 
 
 def chunks(xs, n):
